@@ -5,8 +5,11 @@ import numpy
 
 from piquasso._math.hafnian import labudde as LB, powtrace as PT, hessenberg as HB
 
-from .. import xa, core
+import z3
+
+from .. import xa, core, si, cx
 from . import common as cm
+from . import cxcommon as cc
 
 
 def _trace_powers(env, H, kmax):
@@ -68,11 +71,136 @@ def h_hessenberg(env, dim, pow_max):
         env.equal("tr(A^%d) after reduction" % (k + 1), traces[k], want[k])
 
 
-HARNESSES = {"powtrace": h_powtrace, "hessenberg": h_hessenberg}
+def h_cpp_permanent(env, rows, cols, kernel="permanent"):
+    """src/permanent.cpp permanent_cpp<double> interpreted from clang's AST on a GENERIC complex matrix, for the given row /
+    column multiplicities and EVERY thread count hardware_concurrency() >= 1 may return (the solver enumerates the classes
+    4*hc < number of Gray-code indices, one path each, and hc beyond that as one path): the returned value equals the sum
+    over permutations of the matrix with repeated rows / columns, and no undefined behaviour was met on the way."""
+    d = len(rows)
+    A = env.cplx_mat("a", d)
+    prog = cc.program(kernel)
+    env.functions += cc.fn_refs(prog, "%s<double>, n_aryGrayCodeCounter, binomialCoeff (clang-14 AST)" % ("permanent_cpp" if kernel == "permanent" else "permanent_laplace_cpp"))
+    if kernel == "laplace":
+        # one sub-permanent per column: the permanent with that column's multiplicity reduced by one (rows sum to sum(cols) - 1)
+        want = [cc.permanent_definition(A, rows, [c - (1 if j == i else 0) for j, c in enumerate(cols)]) if cols[i] > 0 else 0 for i in range(d)]
+        if env.mode == "sym":
+            hc = si.SI(env.ivar("n_threads", 1, 1024), 32)
+            got, ub = cc.interp_laplace(env, A, rows, cols, hc, prog)
+        else:
+            hc = env.ivar("n_threads", 1, 1024)
+            got, ub = cc.native_permanent(A, rows, cols, hc, "L")
+            got = got if got is not None else [float("nan")] * d
+        for i in range(d):
+            if cols[i] > 0:
+                env.equal("Laplace sub-permanent %d == sum over permutations" % i, got[i], want[i])
+        env.holds("no undefined behaviour in permanent_laplace_cpp", not ub)
+        return
+    env.stubs += ["Matrix/Vector handles of src/matrix.hpp, std::vector, std::complex arithmetic, ldexp, uninitialized_copy_n = native models",
+                  "std::thread::hardware_concurrency() = symbolic integer 1..1024", "destructors / delete not modelled"]
+    want = cc.permanent_definition(A, rows, cols)
+    if env.mode == "sym":
+        hc = si.SI(env.ivar("n_threads", 1, 1024), 32)
+        got, ub = cc.interp_permanent(env, A, rows, cols, hc, prog)
+        env.equal("permanent_cpp == sum over permutations", got, want)
+        env.holds("no undefined behaviour in permanent_cpp", not ub)
+        if ub:
+            env.stubs.append("UB: " + ub[0][0])
+    else:
+        hc = env.ivar("n_threads", 1, 1024)
+        got, ub = cc.native_permanent(A, rows, cols, hc)
+        env.equal("permanent_cpp == sum over permutations", got if got is not None else float("nan"), want)
+        env.holds("no undefined behaviour in permanent_cpp", not ub)
+
+
+def _perm_weight_sites(prog):
+    """the two statements of permanent_cpp<double> that maintain the binomial weight, with the declarations they mention"""
+    fn = prog.find(None, "permanent_cpp", 3, pick="complex<double>")
+    def lhs_is(n, name):
+        l = n.get("inner", [{}])[0]
+        return l.get("kind") == "DeclRefExpr" and l.get("referencedDecl", {}).get("name") == name
+    step = cc.find_nodes(fn, lambda n: n.get("kind") == "BinaryOperator" and n.get("opcode") == "=" and lhs_is(n, "binomial_coeff"))
+    init = cc.find_nodes(fn, lambda n: n.get("kind") == "CompoundAssignOperator" and n.get("opcode") == "*=" and lhs_is(n, "binomial_coeff"))
+    decl = cc.find_nodes(fn, lambda n: n.get("kind") == "VarDecl" and n.get("name") == "binomial_coeff")
+    use = cc.find_nodes(fn, lambda n: n.get("kind") in ("CXXStaticCastExpr", "ImplicitCastExpr") and n.get("castKind") == "IntegralToFloating"
+                        and cc.find_nodes(n, lambda m: m.get("kind") == "DeclRefExpr" and m.get("referencedDecl", {}).get("name") == "binomial_coeff"))
+    if len(step) != 1 or len(init) != 1 or len(decl) != 1:
+        raise xa.HarnessError("permanent_cpp: expected one declaration, one initial product and one Gray-step update of binomial_coeff, found %d/%d/%d"
+                              % (len(decl), len(init), len(step)))
+    return fn, decl[0], init[0], step[0]
+
+
+def _decl_ids(node):
+    return {n["referencedDecl"]["name"]: n["referencedDecl"] for n in cc.find_nodes(node, lambda m: m.get("kind") == "DeclRefExpr" and m["referencedDecl"]["kind"] in ("VarDecl", "ParmVarDecl"))}
+
+
+def h_cpp_weights(env, total):
+    """the integer weight of the native permanent for ALL multiplicities up to a total: the Gray-code step statement
+    `binomial_coeff = value < prev_value ? ... : ...` of permanent_cpp is executed from its AST on symbolic machine integers,
+    from ANY state satisfying the invariant binomial_coeff = C(r1, g1) * C(r2, g2) (two counted rows, r1 + r2 <= total, one digit
+    moving by one): no intermediate leaves the declared C++ type (signed overflow is undefined behaviour) and the result is the
+    invariant's value for the new Gray code.  num mode: the compiled kernel under UBSan on the all-ones matrix."""
+    prog = cc.program()
+    env.functions += cc.fn_refs(prog, "permanent_cpp<double>: binomial weight statements (clang-14 AST)")
+    r1 = env.ivar("r1", 1, total)
+    r2 = env.ivar("r2", 0, total)
+    g1 = env.ivar("g1", 0, total)
+    g2 = env.ivar("g2", 0, total)
+    up = env.ivar("up", 0, 1)
+    if env.mode == "num":
+        # end-to-end twin: user rows (r1 + 1, r2) so that the counted rows are (r1, r2); per(J) = n!
+        import math
+        rows = [r1 + 1, r2] if r2 else [r1 + 1]
+        n = sum(rows)
+        A = numpy.ones((len(rows), len(rows)), dtype=complex)
+        ok = r1 + r2 <= total
+        env.num_assumptions.append(("r1+r2<=total", ok))
+        if not ok:
+            return
+        got, ub = cc.native_permanent(A, rows, rows, 1)
+        env.holds("no signed overflow / weight correct (native run on the all-ones matrix)", (not ub) and got is not None and abs(got - math.factorial(n)) <= 1e-9 * math.factorial(n))
+        return
+    fn, decl, init, step = _perm_weight_sites(prog)
+    ty = cx.INT_TYPES.get(cx._tname(decl))
+    if ty is None:
+        raise xa.HarnessError("binomial_coeff has non-integer type %s" % cx._tname(decl))
+    binom, ax = si.binom_table(total)
+    env.axioms += ax
+    env.assume("r1+r2<=total", xa.SymBool(r1 + r2 <= total))
+    env.assume("0<=g1<=r1", xa.SymBool(z3.And(g1 <= r1)))
+    env.assume("0<=g2<=r2", xa.SymBool(z3.And(g2 <= r2)))
+    newg = z3.If(up == 1, g1 + 1, g1 - 1)
+    env.assume("the moving digit stays in range", xa.SymBool(z3.And(newg >= 0, newg <= r1)))
+    B = si.SI(binom(r1, g1) * binom(r2, g2), ty[0])
+    ids = _decl_ids(step)
+    it = cx.Interp(prog, env)
+    frame = {}
+    vals = {"binomial_coeff": B, "prev_value": si.SI(g1, 32), "value": si.SI(newg, 32), "row_mult_current": si.SI(r1, 32)}
+    for name, rd in ids.items():
+        if name not in vals:
+            raise xa.HarnessError("Gray-step weight update mentions %s - the harness does not know its meaning" % name)
+        frame[rd["id"]] = vals[name]
+    it.frames.append(frame)
+    it.this.append(None)
+    n0 = len(env.records)
+    it.ev(step)
+    out = frame[ids["binomial_coeff"]["id"]]
+    env.holds("weight after the step == C(r1, g1') * C(r2, g2)", si.SI.lift(out) == si.SI(binom(r1, newg) * binom(r2, g2), 64))
+    env.holds("no undefined behaviour events", not it.ub_events)
+
+
+h_cpp_weights.replay_any = True
+
+HARNESSES = {"powtrace": h_powtrace, "hessenberg": h_hessenberg, "cpp_permanent": h_cpp_permanent, "cpp_weights": h_cpp_weights}
 
 
 def instances(tier):
     out = [("powtrace", {"dim": d, "pow_max": p}) for d, p in ((2, 2), (2, 5), (3, 3), (3, 7), (4, 4), (4, 6))]
+    out += [("cpp_permanent", {"rows": list(r), "cols": list(c)}) for r, c in (((1, 1), (1, 1)), ((2, 1), (1, 2)), ((0, 2), (1, 1)), ((1, 1, 1), (1, 1, 1)), ((2, 0, 1), (1, 1, 1)), ((2, 2), (3, 1)), ((1, 2, 1), (2, 0, 2)))]
+    out += [("cpp_permanent", {"rows": list(r), "cols": list(c), "kernel": "laplace"}) for r, c in (((1, 1), (2, 1)), ((2, 1), (2, 2)), ((1, 0, 1), (1, 1, 1)), ((2, 2), (3, 2)), ((0, 2, 1), (2, 1, 1)))]
+    out += [("cpp_weights", {"total": 24}), ("cpp_weights", {"total": 40})]
+    if tier == "thorough":
+        out += [("cpp_permanent", {"rows": list(r), "cols": list(c)}) for r, c in (((3, 2), (4, 1)), ((2, 2, 1), (1, 3, 1)), ((1, 1, 1, 1), (1, 1, 1, 1)), ((2, 1, 0, 2), (1, 1, 2, 1)))]
+        out += [("cpp_weights", {"total": 48})]
     if tier == "thorough":
         out += [("powtrace", {"dim": 5, "pow_max": 7}), ("powtrace", {"dim": 6, "pow_max": 6})]
     if tier == "thorough":
